@@ -4838,7 +4838,7 @@ impl GraphEngine {
 
                     let neighbor = if edge.from == current {
                         edge.to
-                    } else if edge.to == current {
+                    } else if edge.to == current && !edge.directed {
                         edge.from
                     } else {
                         continue;
